@@ -812,7 +812,14 @@ pub fn run_check(prop: &dyn Prop, tier: &str, seed: u64, pr: &mut Printer) -> i3
 
     let mut evidence = json!({});
     let parent_v = prop.parent_phase(&env, &mut evidence);
-    violations.extend(parent_v);
+    for v in parent_v {
+        // build / tool failures are not verdicts about the property
+        if v.sig.starts_with("infrastructure/") {
+            inconclusive.push(format!("{}: {}", v.sig, v.detail.chars().take(600).collect::<String>()));
+        } else {
+            violations.push(v);
+        }
+    }
 
     // de-duplicate by signature, keep the smallest witness
     let mut by_sig: BTreeMap<String, Violation> = BTreeMap::new();
